@@ -5,10 +5,8 @@ import (
 	"encoding/json"
 	"fmt"
 	"math/big"
-	"os"
 	"reflect"
 	"strings"
-	"sync"
 	"testing"
 
 	"github.com/cockroachdb/apd/v3"
@@ -17,11 +15,6 @@ import (
 	"github.com/dolthub/go-mysql-server/vh/internal/kf"
 	"github.com/dolthub/go-mysql-server/vh/internal/stats"
 	"pgregory.net/rapid"
-)
-
-var (
-	surveyMu   sync.Mutex
-	surveySeen = map[string]int{}
 )
 
 // outcome is what one route did with the value.
@@ -256,17 +249,6 @@ func checkCase(rt *rapid.T, st *stats.Collector, c tcase, exclude bool) {
 	report := func(o outcome, why string) {
 		if id := signature(c, o, why); id != "" && kf.Suppress(st, id) {
 			st.Class("known " + id)
-			return
-		}
-		if os.Getenv("C27_SURVEY") != "" {
-			k := fmt.Sprintf("VIOLATION %s | %s | %s", c.family, o.route, why)
-			surveyMu.Lock()
-			if surveySeen[k] < 3 {
-				fmt.Printf("%s\n    %s\n    engine: %s\n", k, c, o)
-			}
-			surveySeen[k]++
-			surveyMu.Unlock()
-			st.Class(k)
 			return
 		}
 		rt.Fatalf("C27 violated on route %q: %s\n  %s\n  acceptable when stored: %q; under INSERT IGNORE: %q\n  engine: %s\n%s",
